@@ -1125,3 +1125,54 @@ def c_cdist_bw(func, args, kwargs):
                 R[i, k] = acc
         return R
     return batched(f, grad, x1, x2, cd)
+
+
+@simple(aten._is_all_true.default)
+def c_is_all_true(func, args, kwargs):
+    return _reduce_bool(G(args[0]), None, False, b_and, True)
+
+
+@simple(aten._is_any_true.default)
+def c_is_any_true(func, args, kwargs):
+    return _reduce_bool(G(args[0]), None, False, b_or, False)
+
+
+def _minmax_dim(is_min):
+    def h(func, args, kwargs):
+        x = args[0]
+        dim = args[1] if len(args) > 1 else kwargs.get("dim")
+        keep = args[2] if len(args) > 2 else kwargs.get("keepdim", False)
+        raw = G(x)
+        if raw.size and all(_is_boolish(v) for v in raw.reshape(-1)):
+            out = func(*args, **kwargs)
+            SH.put(out[0], _reduce_bool(raw, [dim], keep, b_and if is_min else b_or, is_min))
+            return out
+        A = A_(x)
+        out = func(*args, **kwargs)
+        vals, idxs = out[0], out[1]
+        d = dim % max(A.ndim, 1)
+        Am = np.moveaxis(A, d, -1) if A.ndim else A.reshape(1)
+        im = idxs.unsqueeze(d) if not keep and A.ndim else idxs
+        im = np.moveaxis(im.numpy(), d, -1)[..., 0] if A.ndim else np.zeros((), dtype=int)
+        R = np.empty(Am.shape[:-1], dtype=object)
+        for pos in np.ndindex(*Am.shape[:-1]):
+            k = int(im[pos])
+            best = Am[pos][k]
+            for j in range(Am.shape[-1]):
+                if j == k:
+                    continue
+                c = sym_cmp("le" if is_min else "ge", best, Am[pos][j])
+                if isinstance(c, SymB):
+                    # path condition: the arg-extremum is the one observed at the witness
+                    CTX.pc.append(c.f)
+            R[pos] = best
+        CTX.branches.append(("arg%s" % ("min" if is_min else "max"), str(idxs.reshape(-1).tolist()[:8]), where_am_i()))
+        if keep and A.ndim:
+            R = np.expand_dims(R, d)
+        SH.put(vals, R)
+        return out
+    return h
+
+
+reg(aten.min.dim)(_minmax_dim(True))
+reg(aten.max.dim)(_minmax_dim(False))
